@@ -147,6 +147,8 @@ func vfC15RunHost(t *testing.T, st *cluster.VerifLeaseStore, dir string, yaml st
 // ------------------------------------------------------------ scripted election for the ticker
 
 type vfC15Fake struct {
+	nOver   int           // number of calls when the scenario was wound up (-1: not yet)
+	release chan struct{} // closed at the end of a scenario: blocked calls return then
 	mu     sync.Mutex
 	start  time.Time
 	script []string
@@ -169,12 +171,27 @@ func (f *vfC15Fake) rec(kind string) {
 	f.kinds = append(f.kinds, kind)
 }
 
+// block: the call does not return (and, like redisElection.Campaign, does not
+// look at its context: see the renew_ignores_ctx_deadline probe) until the
+// scenario is over.
+func (f *vfC15Fake) block() {
+	f.fails = append(f.fails, true)
+	f.mu.Unlock()
+	<-f.release
+	f.mu.Lock()
+}
+
 func (f *vfC15Fake) Renew(ctx context.Context) error {
 	f.mu.Lock()
 	defer f.mu.Unlock()
 	f.rec("r")
 	var err error
-	switch f.next("ok") {
+	a := f.next("ok")
+	if a == "blk" {
+		f.block()
+		return errors.New("connection reset (after blocking)")
+	}
+	switch a {
 	case "nl", "fl":
 		err = cluster.ErrNotLeader
 	case "err":
@@ -188,7 +205,12 @@ func (f *vfC15Fake) Campaign(ctx context.Context) (cluster.ClusterRole, error) {
 	f.mu.Lock()
 	defer f.mu.Unlock()
 	f.rec("c")
-	switch f.next("fl") {
+	a := f.next("fl")
+	if a == "blk" {
+		f.block()
+		return cluster.RoleCandidate, errors.New("connection reset (after blocking)")
+	}
+	switch a {
 	case "ld", "ok":
 		f.fails = append(f.fails, false)
 		return cluster.RoleLeader, nil
@@ -495,16 +517,21 @@ func TestVerifC15Cmd(t *testing.T) {
 	}
 
 	// ---- clusterTicker with a scripted election, virtual time
-	tick := func(leader bool, R time.Duration, n int, script []string, src string) {
-		lease := 3 * R
+	// R = renew period, lease = LeaseTimeout, ago = how long before the ticker
+	// starts the campaign that made the instance leader was SENT (the lease
+	// runs from there), n ticks are observed.
+	tick := func(leader bool, R, lease, ago time.Duration, n int, script []string, src string) {
 		*config.GetSyncerConfig() = config.SyncConfig{Cluster: &config.ClusterConfig{GroupName: "g1", LeaseTimeout: lease, LeaseRenewInterval: R}}
 		ttlMs := int64(lease/time.Second) * 1000 // the lease the store holds (cmd/syncer.go run(): whole seconds)
 		fake := &vfC15Fake{script: script}
-		var closedAt int64 = -1
+		var closedAt, returnedAt int64 = -1, -1
 		var closedErr error
 		horizon := time.Duration(n)*R + R/2
 		synctest.Test(t, func(t *testing.T) {
+			fake.release = make(chan struct{}) // made inside the bubble: waiting on it is durable
+			time.Sleep(ago)                     // the campaign was sent `ago` before the ticker starts
 			fake.start = time.Now()
+			leaseFrom := fake.start.Add(-ago)
 			cmd := NewSyncerCmd()
 			wait := usync.NewWaitCloser(nil)
 			role := cluster.RoleFollower
@@ -512,11 +539,14 @@ func TestVerifC15Cmd(t *testing.T) {
 				role = cluster.RoleLeader
 			}
 			fin := make(chan struct{})
+			forced := false
 			go func() {
-				cmd.clusterTicker(wait, role, fake, "in", "key")
+				vfC15Ticker(cmd, wait, role, fake, leaseFrom)
+				if !forced {
+					returnedAt = time.Since(fake.start).Milliseconds()
+				}
 				close(fin)
 			}()
-			forced := false
 			go func() {
 				<-wait.Context().Done()
 				if !forced {
@@ -526,13 +556,18 @@ func TestVerifC15Cmd(t *testing.T) {
 			}()
 			time.Sleep(horizon)
 			synctest.Wait()
+			forced = true
+			fake.mu.Lock()
+			fake.nOver = len(fake.calls) // calls of goroutines released below are not part of the scenario
+			fake.mu.Unlock()
 			if !wait.IsClosed() {
-				forced = true
 				wait.Close(nil)
 			}
+			close(fake.release)
 			<-fin
 			synctest.Wait()
 		})
+		fake.calls, fake.kinds, fake.fails = fake.calls[:fake.nOver], fake.kinds[:fake.nOver], fake.fails[:fake.nOver]
 		sc := "."
 		if len(script) > 0 {
 			sc = strings.Join(script, ",")
@@ -541,7 +576,7 @@ func TestVerifC15Cmd(t *testing.T) {
 		if leader {
 			role = "L"
 		}
-		op := fmt.Sprintf("ticker %d %s %d %d %s", idx, role, R.Milliseconds(), n, sc)
+		op := fmt.Sprintf("ticker %d %s %d %d %d %d %s", idx, role, R.Milliseconds(), lease.Milliseconds(), ago.Milliseconds(), n, sc)
 		replay := map[string]interface{}{"ticker": op}
 		calls := "."
 		if len(fake.calls) > 0 {
@@ -555,31 +590,36 @@ func TestVerifC15Cmd(t *testing.T) {
 		if closedAt >= 0 {
 			closed = fmt.Sprintf("%d:%s", closedAt, vfC15ErrClass(closedErr))
 		}
+		returned := "never"
+		if returnedAt >= 0 {
+			returned = fmt.Sprint(returnedAt)
+		}
 		// exact instants and the close reason are compared with the model only (tie)
-		s.Op(op, fmt.Sprintf("#%d calls=%s closed=%s", idx, calls, closed))
+		s.Op(op, fmt.Sprintf("#%d calls=%s closed=%s returned=%s", idx, calls, closed, returned))
 		idx++
 		s.Count("ticker_" + src)
 		if closedAt >= 0 {
 			s.Count("ticker_closed_" + vfC15ErrClass(closedErr))
 		}
-		// monitor (independent of Lean; only what C15 needs): while the instance
-		// keeps leading (its wait is open) it is never more than one ttl past
-		// its last successful renewal — the campaign that made it leader counts
-		// as success at 0. How often it renews, how many attempts it makes and
-		// in which millisecond it reacts is its own business.
+		// monitor (independent of Lean; only what C15 needs): the instance keeps
+		// leading until clusterTicker RETURNS (only then runCluster stops the
+		// syncer). At no time before that may it be more than one ttl past the
+		// SEND of its last successful campaign/renewal — whatever the election
+		// calls do (fail, succeed late, never return). How often it renews, how
+		// many attempts it makes and when exactly it reacts is its own business.
 		if leader {
-			last := int64(0)
+			last := -ago.Milliseconds()
 			end := horizon.Milliseconds()
-			if closedAt >= 0 {
-				end = closedAt
+			if returnedAt >= 0 {
+				end = returnedAt
 			}
 			for i, c := range fake.calls {
-				if c > end {
+				if c > end || (returnedAt < 0 && c >= end) { // calls made after the scenario was wound up
 					break
 				}
 				if !fake.fails[i] {
 					if c-last > ttlMs {
-						s.Violate("leads-past-its-lease", fmt.Sprintf("no successful renewal between %d ms and %d ms (lease %d ms) while the syncer's wait stayed open", last, c, ttlMs), replay)
+						s.Violate("leads-past-its-lease", fmt.Sprintf("no successful renewal between %d ms and %d ms (lease %d ms) while the instance kept leading", last, c, ttlMs), replay)
 					}
 					last = c
 				} else {
@@ -587,49 +627,69 @@ func TestVerifC15Cmd(t *testing.T) {
 				}
 			}
 			if end-last > ttlMs {
-				s.Violate("leads-past-its-lease", fmt.Sprintf("last successful renewal at %d ms, lease %d ms, but the syncer's wait was still open at %d ms (closed=%s): the instance keeps leading after its lease can be taken", last, ttlMs, end, closed), replay)
+				s.Violate("leads-past-its-lease", fmt.Sprintf("last successful campaign/renewal sent at %d ms, lease %d ms, but clusterTicker had not returned at %d ms (wait closed=%s, returned=%s): the instance keeps leading after its lease can be taken", last, ttlMs, end, closed, returned), replay)
 			}
 		}
 	}
 	if replayTicker != "" {
 		f := strings.Fields(replayTicker)
-		if len(f) == 6 {
-			var rms, n int
+		if len(f) == 8 {
+			var rms, lms, ams, n int
 			fmt.Sscan(f[3], &rms)
-			fmt.Sscan(f[4], &n)
+			fmt.Sscan(f[4], &lms)
+			fmt.Sscan(f[5], &ams)
+			fmt.Sscan(f[6], &n)
 			var sc []string
-			if f[5] != "." {
-				sc = strings.Split(f[5], ",")
+			if f[7] != "." {
+				sc = strings.Split(f[7], ",")
 			}
-			tick(f[2] == "L", time.Duration(rms)*time.Millisecond, n, sc, "replay")
+			tick(f[2] == "L", time.Duration(rms)*time.Millisecond, time.Duration(lms)*time.Millisecond, time.Duration(ams)*time.Millisecond, n, sc, "replay")
 		}
 		return
 	}
 	if replaying {
 		return
 	}
-	// all scripts of length <= 4 (quick) / 6 (thorough), each also followed by a
-	// long run of failures (a lease that is really gone / a store that stays down)
-	for _, leader := range []bool{true, false} {
-		alpha := []string{"ok", "nl", "err"}
-		if !leader {
-			alpha = []string{"fl", "ld", "err"}
+	for _, l := range vfutil.Corpus("C15") { // witnesses first
+		f := strings.Fields(l)
+		if len(f) == 8 && f[0] == "ticker" {
+			var rms, lms, ams, n int
+			fmt.Sscan(f[3], &rms)
+			fmt.Sscan(f[4], &lms)
+			fmt.Sscan(f[5], &ams)
+			fmt.Sscan(f[6], &n)
+			var sc []string
+			if f[7] != "." {
+				sc = strings.Split(f[7], ",")
+			}
+			tick(f[2] == "L", time.Duration(rms)*time.Millisecond, time.Duration(lms)*time.Millisecond, time.Duration(ams)*time.Millisecond, n, sc, "corpus")
 		}
-		maxLen := vfutil.Scale(4, 6)
+	}
+	// all scripts of length <= 4 (quick) / 6 (thorough) over {ok, ErrNotLeader, error, call that
+	// never returns}; each short leader script also followed by a long run of failures (a lease
+	// that is really gone / a store that stays down). R = 1.5 s, lease 5 s, campaign sent 200 ms
+	// before the ticker starts (no two timers of the scenario coincide).
+	const tR, tLease, tAgo = 1500 * time.Millisecond, 5 * time.Second, 200 * time.Millisecond
+	for _, leader := range []bool{true, false} {
+		alpha := []string{"blk", "ok", "nl", "err"}
+		if !leader {
+			alpha = []string{"blk", "fl", "ld", "err"}
+		}
+		maxLen := vfutil.Scale(4, 5)
 		var rec func(p []string)
 		rec = func(p []string) {
-			tick(leader, time.Second, len(p)+2, append([]string{}, p...), "exhaustive")
-			if leader && len(p) <= 3 {
+			tick(leader, tR, tLease, tAgo, len(p)+5, append([]string{}, p...), "exhaustive")
+			if leader && len(p) <= 2 {
 				for _, f := range []string{"nl", "err"} {
 					long := append([]string{}, p...)
 					for i := 0; i < 10; i++ {
 						long = append(long, f)
 					}
-					tick(leader, time.Second, len(long)+2, long, "exhaustive_then_down")
+					tick(leader, tR, tLease, tAgo, len(long)+2, long, "exhaustive_then_down")
 				}
 			}
-			if len(p) == maxLen {
-				return
+			if len(p) == maxLen || (len(p) > 0 && p[len(p)-1] == "blk") {
+				return // nothing is consumed after a call that never returns
 			}
 			for _, a := range alpha {
 				rec(append(p, a))
@@ -639,7 +699,7 @@ func TestVerifC15Cmd(t *testing.T) {
 	}
 	for i := 0; i < vfutil.Scale(300, 5000); i++ {
 		leader := r.Bool()
-		alpha := []string{"ok", "ok", "ok", "nl", "err"}
+		alpha := []string{"ok", "ok", "ok", "ok", "nl", "err"}
 		if !leader {
 			alpha = []string{"fl", "fl", "fl", "ld", "err"}
 		}
@@ -648,12 +708,26 @@ func TestVerifC15Cmd(t *testing.T) {
 		for j := range sc {
 			sc[j] = vfutil.Pick(r, alpha)
 		}
-		if leader && r.Chance(1, 3) {
-			for j := 0; j < 10; j++ {
-				sc = append(sc, "nl")
+		switch r.Intn(4) {
+		case 0:
+			if leader {
+				for j := 0; j < 10; j++ {
+					sc = append(sc, "nl")
+				}
 			}
+		case 1:
+			sc = append(sc, "blk")
 		}
-		R := time.Duration(r.Range(1, 200)) * time.Second
-		tick(leader, R, r.Range(1, len(sc)+2), sc, "gen")
+		// renew period 1..200 s, lease >= 3 periods (as ClusterConfig.fix guarantees), odd milliseconds so that
+		// the lease watchdog and the ticker never fire in the same instant
+		R := time.Duration(r.Range(1, 200))*time.Second + time.Duration(r.Range(1, 9))*100*time.Millisecond
+		lease := 3*R + time.Duration(r.Range(0, 5000))*time.Millisecond
+		ago := time.Duration(r.Range(1, 99)) * 7 * time.Millisecond
+		tick(leader, R, lease, ago, r.Range(1, len(sc)+4), sc, "gen")
 	}
+}
+
+// vfC15Ticker calls the real clusterTicker.
+func vfC15Ticker(cmd *SyncerCmd, wait usync.WaitCloser, role cluster.ClusterRole, el cluster.Election, leaseFrom time.Time) {
+	cmd.clusterTicker(wait, role, el, "in", "key", leaseFrom)
 }
